@@ -8,13 +8,14 @@ type vNet struct {
 	a, b   *Association
 	idx    int
 	dropAt int // index of the packet that is lost (-1: none)
+	dropAt2 int // a second lost packet (0 or -1: none; packet 0 can only be lost through dropAt)
 	dupAt  int // index of the packet that is delivered twice (-1: none)
 	fwdSeen bool
 }
 
 func (n *vNet) wire(x, y *Association) int {
 	c := 0
-	for _, raw := range vWriterPass(x) {
+	for _, raw := range vWriterWake(x) {
 		p := vDecode(raw)
 		if p != nil {
 			for _, ch := range p.chunks {
@@ -24,7 +25,7 @@ func (n *vNet) wire(x, y *Association) int {
 				}
 			}
 		}
-		if n.idx != n.dropAt {
+		if n.idx != n.dropAt && (n.dropAt2 <= 0 || n.idx != n.dropAt2) {
 			vInbound(y, raw)
 			if n.idx == n.dupAt {
 				vInbound(y, raw)
@@ -77,7 +78,11 @@ func vh_C02_L1_reliable_transfer_one_fault() {
 	s, err := a.OpenStream(1, PayloadTypeWebRTCBinary)
 	vassert(err == nil, "open stream")
 	maxp := int(a.maxPayloadSize)
-	nmsg := 1 + vPick(2)
+	maxMsgs := 2
+	if vtier() > 0 {
+		maxMsgs = 3
+	}
+	nmsg := 1 + vPick(maxMsgs)
 	var want [][]byte
 	for i := 0; i < nmsg; i++ {
 		size := 1
@@ -92,13 +97,16 @@ func vh_C02_L1_reliable_transfer_one_fault() {
 		vassert(werr == nil && n == size, "write accepted")
 	}
 	net := &vNet{a: a, b: b, dropAt: -1, dupAt: -1}
-	switch vPick(3) {
+	switch vPick(4) {
 	case 1:
-		net.dropAt = vPick(5)
+		net.dropAt = vPick(8)
 	case 2:
-		net.dupAt = vPick(5)
+		net.dupAt = vPick(8)
+	case 3: // two packets lost
+		net.dropAt = vPick(5)
+		net.dropAt2 = net.dropAt + 1 + vPick(4)
 	}
-	net.settle(24, 4)
+	net.settle(32, 6)
 	bs := b.streams[1]
 	vassert(bs != nil, "receiver has the stream")
 	if bs == nil {
@@ -171,6 +179,64 @@ func vh_C07_L1_abandoned_does_not_block() {
 	vassert(bs.getNumBytesInReassemblyQueue() == 0, "no fragment of the abandoned message stays held")
 	vassert(b.getMyReceiverWindowCredit() == b.maxReceiveBufferSize, "advertised window returns to the full buffer")
 	vassert(s.BufferedAmount() == 0, "sender's buffered amount returns to zero (abandoned bytes count as released)")
+	vassert(!a.willSendAbort && !b.willSendAbort, "no ABORT")
+	vcover("end")
+}
+
+// C02.L2: zero-window episode. The receiver's buffer holds two bytes and its reader
+// pauses until the window is zero; three one-byte messages (optionally one packet lost)
+// are all delivered once the reader resumes, and the sender ends up drained: the window
+// probe and T3 keep the association alive through the zero-window episode.
+func vh_C02_L2_zero_window() {
+	il := vPick(2) == 1
+	a, b := vPair(vAssocOpts{interleaving: il, pickTSN: true, recvBuf: 2})
+	s, err := a.OpenStream(1, PayloadTypeWebRTCBinary)
+	vassert(err == nil, "open stream")
+	a.rwnd = 2 // what the peer advertised at the handshake
+	var want []byte
+	for i := 0; i < 3; i++ {
+		m := nondetBytes(1)
+		want = append(want, m[0])
+		_, werr := s.WriteSCTP(m, PayloadTypeWebRTCString)
+		vassert(werr == nil, "write accepted")
+	}
+	net := &vNet{a: a, b: b, dropAt: -1, dupAt: -1}
+	if vPick(2) == 1 {
+		net.dropAt = vPick(4)
+	}
+	net.settle(12, 2) // the reader is paused
+	bs := b.streams[1]
+	vassert(bs != nil, "receiver has the stream")
+	if bs == nil {
+		return
+	}
+	vassert(bs.getNumBytesInReassemblyQueue() <= 3, "a bounded amount is held while the reader is paused")
+	var got []byte
+	buf := make([]byte, 4)
+	for round := 0; round < 6 && len(got) < 3; round++ {
+		for {
+			n, _, rerr := bs.reassemblyQueue.read(buf)
+			if rerr != nil {
+				break
+			}
+			vassert(n == 1, "one-byte messages")
+			got = append(got, buf[0])
+		}
+		net.settle(12, 3)
+	}
+	for {
+		n, _, rerr := bs.reassemblyQueue.read(buf)
+		if rerr != nil {
+			break
+		}
+		_ = n
+		got = append(got, buf[0])
+	}
+	vassert(len(got) == 3, "every message is delivered after the zero-window episode")
+	for i := 0; i < len(got) && i < 3; i++ {
+		vassert(got[i] == want[i], "in order and intact")
+	}
+	vassert(a.inflightQueue.size() == 0 && a.pendingQueue.size() == 0 && s.BufferedAmount() == 0, "the sender is drained")
 	vassert(!a.willSendAbort && !b.willSendAbort, "no ABORT")
 	vcover("end")
 }
